@@ -21,4 +21,10 @@
 #define CH_FRESH(self) ((self)->m_channel == (struct channel *)0 ? 1 : __CPROVER_is_fresh((self)->m_channel, sizeof(struct channel)))
 /* a connected socket is one end of its channel */
 #define CH_MINE(self) ((self)->m_channel->ep[0] != (self)->m_channel->ep[1] && ((self)->m_channel->ep[0] == (self)->m_bound_to || (self)->m_channel->ep[1] == (self)->m_bound_to))
+static inline struct packet *pl_front_assume_resend(struct tcp_socket *self)
+{
+  struct packet *f = pl_front(&self->m_outgoing_packets);
+  __CPROVER_assume(RESEND_OK(self, *f));
+  return f;
+}
 #endif
